@@ -2,11 +2,10 @@
     Proved here: no method is dropped on success (all-or-nothing parse, one
     function per method). Acceptance of the conventional inputs themselves and
     independence from layout are decided by the correspondence runs (well-formed
-    generator stream; the marker/cut surgery of GenerateBaseCode is modelled in
-    BaseCode.v once built — see DESIGN.md). *)
+    and layout generator streams, whole-file byte comparison through BaseCode.v). *)
 From Coq Require Import String.
-From Cvg Require Import Base GoTypes Dump Options Front Builder Gen Pipeline.
-From Cvg.proofs Require Import BuilderProofs FrontProofs.
+From Cvg Require Import Base GoTypes Dump Options Front Builder Gen Pipeline BaseCode.
+From Cvg.proofs Require Import BuilderProofs FrontProofs BaseCodeProofs.
 Open Scope N_scope.
 
 Theorem C03_every_method_parsed :
@@ -41,3 +40,19 @@ Proof.
     apply ret_ok in Hf as [<- _]. reflexivity.
 Qed.
 Print Assumptions C03_every_method_gets_a_function.
+
+(** Independence from the size of the interface: the opening and the closing
+    marker of a converter interface always end up in two comment groups of their
+    own, opening before closing, whatever the distance between the braces (one
+    very short method included) — provided neither brace lies inside a comment.
+    (Before the repair the closing marker was appended to the opening marker's
+    group whenever the braces were less than 21 bytes apart.) *)
+Theorem C03_two_markers_two_groups :
+  forall gs m mn mx,
+    mn < mx ->
+    (forall g, In g gs -> ~ spans g mx) -> (forall g, In g gs -> ~ spans g mn) ->
+    exists l1 l2 l3,
+      insert_comment (insert_comment gs (marker_comment m mx)) (marker_comment m mn)
+      = l1 ++ [marker_comment m mn] :: l2 ++ [marker_comment m mx] :: l3 /\ gs = l1 ++ l2 ++ l3.
+Proof. exact two_markers_two_groups. Qed.
+Print Assumptions C03_two_markers_two_groups.
